@@ -61,15 +61,14 @@ def load_csv(
     if id_col is not None and not df.iloc[:, id_col].is_unique:
         raise DataError(f"Duplicate value(s) in column at index {id_col}")
 
+    # resolve every column position against the frame as read, before any selection:
+    # indexing a re-ordered frame with the original positions picked the wrong columns
+    id_name = df.columns[id_col] if id_col is not None else None
+    weight_name = df.columns[weight_col] if weight_col is not None else None
     if rank_cols:
-        if id_col is not None:
-            df = df.iloc[:, rank_cols + [id_col]]
-        else:
-            df = df.iloc[:, rank_cols]
-
-    ranks = list(df.columns)
-    if id_col is not None:
-        ranks.remove(df.columns[id_col])
+        ranks = [df.columns[i] for i in rank_cols]
+    else:
+        ranks = [c for c in df.columns if c != id_name and c != weight_name]
     grouped = df.groupby(ranks, dropna=False)
     ballots = []
 
@@ -79,11 +78,11 @@ def load_csv(
         )
 
         voter_set = None
-        if id_col is not None:
-            voter_set = set(group_df.iloc[:, id_col])
+        if id_name is not None:
+            voter_set = set(group_df[id_name])
         weight = len(group_df)
-        if weight_col is not None:
-            weight = sum(group_df.iloc[:, weight_col])
+        if weight_name is not None:
+            weight = sum(group_df[weight_name])
         b = Ballot(ranking=ranking, weight=Fraction(weight), voter_set=voter_set)
         ballots.append(b)
 
